@@ -122,7 +122,10 @@ class BankMachine(Module):
             req.connect(cmd_buffer_lookahead.sink, keep={"valid", "ready", "we", "addr"}),
             cmd_buffer_lookahead.source.connect(cmd_buffer.sink),
             cmd_buffer.source.ready.eq(req.wdata_ready | req.rdata_valid),
-            req.lock.eq(cmd_buffer_lookahead.source.valid | cmd_buffer.source.valid),
+            # Note: with a buffered lookahead FIFO, source.valid only rises two cycles after a request has
+            # been accepted; use level to hold the lock as soon as a request is queued.
+            req.lock.eq(cmd_buffer_lookahead.source.valid | (cmd_buffer_lookahead.level != 0) |
+                        cmd_buffer.source.valid),
         ]
 
         slicer = _AddressSlicer(settings.geom.colbits, address_align)
